@@ -33,11 +33,12 @@ ATTRS = [REQ_ATTRS, RESP_ATTRS]
 
 TAGS = {'init_req': 0, 'init_req0': 1, 'new_resp': 2, 'init_resp': 3, 'get': 4, 'set': 5, 'del': 6,
         'hget': 7, 'hset_fresh': 8, 'hset_headers': 9, 'hdr_set': 10, 'hdr_items': 11, 'attr_items': 12,
-        'env_get': 13, 'req_get': 14, 'env_set': 15, 'copy': 16}
+        'env_get': 13, 'req_get': 14, 'env_set': 15, 'copy': 16, 'raw_set': 17, 'raw_hset': 18}
 # argument shapes: 'n' = object number, 'c' = class (0 Request / 1 Response), 'a' attr, 'k' key, 'v' value
 SHAPES = {'init_req': 'nv', 'init_req0': 'n', 'new_resp': 'n', 'init_resp': 'n', 'get': 'cna', 'set': 'cnav',
           'del': 'cna', 'hget': 'n', 'hset_fresh': 'n', 'hset_headers': 'n', 'hdr_set': 'nkv', 'hdr_items': 'n',
-          'attr_items': 'cna', 'env_get': 'nk', 'req_get': 'nk', 'env_set': 'nkv', 'copy': 'nn'}
+          'attr_items': 'cna', 'env_get': 'nk', 'req_get': 'nk', 'env_set': 'nkv', 'copy': 'nn',
+          'raw_set': 'cnav', 'raw_hset': 'nv'}
 
 
 def enc_cval(v):
@@ -697,7 +698,10 @@ def repo_trace_dir():
 
 def _bodies(case, apps, logs):
     def mk(i, call):
-        return lambda: do_call(apps, call, logs[i])
+        def body():
+            _tl.tix = i
+            return do_call(apps, call, logs[i])
+        return body
     return [mk(i, c) for i, c in enumerate(case['calls'])]
 
 
@@ -706,6 +710,148 @@ def _warm(apps):
     # an application builds lazily on first use is set-up, not part of a request
     for j in range(len(apps)):
         do_call(apps, dict(app=j, tok='warm', script=[]), [])
+
+
+# -- recording the traffic on the thread-local stores while real requests are served
+
+_MISSING = object()
+SETUP_TID = 99
+
+
+class StoreProxy:
+    """stands in for the threading.local that an object keeps in `_ts_props` (or a HeaderDict in `_ts`):
+    forwards getattr / setattr / delattr to the real local and records them.  The code under test reaches the
+    store only through these three operations, so the record is the complete traffic on that store."""
+    __slots__ = ('_real', '_rec', '_who')
+
+    def __init__(self, real, rec, who):
+        object.__setattr__(self, '_real', real)
+        object.__setattr__(self, '_rec', rec)
+        object.__setattr__(self, '_who', who)
+
+    def __getattr__(self, k):
+        try:
+            v = getattr(self._real, k)
+        except AttributeError:
+            self._rec(self._who, 'get', k, _MISSING)
+            raise
+        self._rec(self._who, 'get', k, v)
+        return v
+
+    def __setattr__(self, k, v):
+        setattr(self._real, k, v)
+        self._rec(self._who, 'set', k, v)
+
+    def __delattr__(self, k):
+        try:
+            delattr(self._real, k)
+        except AttributeError:
+            self._rec(self._who, 'del', k, _MISSING)
+            raise
+        self._rec(self._who, 'del', k, None)
+
+
+class Recorder:
+    def __init__(self, apps):
+        self.events = []
+        self.apps = list(apps)
+        self.tokens = {}
+        self.keep = []
+
+    def rec(self, who, kind, k, v):
+        tix = getattr(_tl, 'tix', None)
+        if tix is not None:
+            self.events.append((tix, who, kind, k, v))
+
+    def install(self):
+        for j, a in enumerate(self.apps):
+            rq, rs = a.request, a.response
+            rq._ts_props = StoreProxy(rq._ts_props, self.rec, (0, j))
+            rs._ts_props = StoreProxy(rs._ts_props, self.rec, (1, j))
+            rs.headers._ts = StoreProxy(rs.headers._ts, self.rec, ('h', j))
+
+    def uninstall(self):
+        for a in self.apps:
+            for holder, slot in ((a.request, '_ts_props'), (a.response, '_ts_props'), (a.response.headers, '_ts')):
+                p = getattr(holder, slot)
+                if isinstance(p, StoreProxy):
+                    setattr(holder, slot, object.__getattribute__(p, '_real'))
+
+    def tok(self, v):
+        if v is None:
+            return ['n']
+        i = self.tokens.get(id(v))
+        if i is None:
+            i = self.tokens[id(v)] = len(self.tokens) + 1
+            self.keep.append(v)
+        return ['i', i]
+
+    def commands(self):
+        """-> (cmds, expected outcomes): the record as a command list for the model, preceded by the construction
+        of the applications' objects on a thread that takes no part in the run"""
+        cmds, outs = [], []
+        for j in range(len(self.apps)):
+            cmds += [[SETUP_TID, 'init_req0', j], [SETUP_TID, 'new_resp', j]]
+            outs += [['unit'], ['unit']]
+        for tix, who, kind, k, v in self.events:
+            if who[0] == 'h':
+                j = who[1]
+                if k != 'dict':
+                    cmds.append([tix, 'get', 1, j, 99])      # not in the vocabulary: the model answers 'bad'
+                    outs.append(['foreign', k])
+                elif kind == 'get':
+                    cmds.append([tix, 'hget', j])
+                    outs.append(['attr'] if v is _MISSING else ['val', self.tok(v)])
+                elif kind == 'set':
+                    cmds.append([tix, 'raw_hset', j, self.tok(v)])
+                    outs.append(['unit'])
+                else:
+                    cmds.append([tix, 'get', 1, j, 99])
+                    outs.append(['foreign', 'del dict'])
+                continue
+            c, j = who
+            if k not in ATTRS[c]:
+                cmds.append([tix, 'get', c, j, 99])
+                outs.append(['foreign', k])
+                continue
+            a = ATTRS[c].index(k)
+            if kind == 'get':
+                cmds.append([tix, 'get', c, j, a])
+                if v is _MISSING:
+                    # the store raises AttributeError; a Request then answers None through __getattr__
+                    outs.append(['val', ['n']] if c == 0 else ['attr'])
+                else:
+                    outs.append(['val', self.tok(v)])
+            elif kind == 'set':
+                cmds.append([tix, 'raw_set', c, j, a, self.tok(v)])
+                outs.append(['unit'])
+            else:
+                cmds.append([tix, 'del', c, j, a])
+                outs.append(['attr'] if v is _MISSING else ['unit'])
+        return cmds, outs
+
+
+_TRACES = {}
+
+
+def trace_cmds(case):
+    return _TRACES.get(json.dumps(case, sort_keys=True))
+
+
+def _fingerprint(apps):
+    """identity of everything on the shared objects that is NOT per-thread: a request must leave it alone"""
+    out = {}
+    for j, a in enumerate(apps):
+        rq, rs = a.request, a.response
+        lst = rq.__listeners__ or {}
+        out['app%d' % j] = dict(
+            app_attrs=sorted(a.__dict__.keys()), app_slots=[id(a.config), id(a.router), id(rq), id(rs)],
+            hooks=sorted((k, len(v)) for k, v in a._hooks.items()), error_handlers=sorted(map(str, a.error_handlers)),
+            req_dict=sorted(rq.__dict__.keys()), req_slots=[id(rq.config), id(lst)],
+            listeners=sorted((k, len(v)) for k, v in lst.items()),
+            resp_headers=id(rs.headers), routes=len(a.routes))
+    return out
+
 
 
 def run_arrangement(case):
@@ -758,10 +904,27 @@ def run_arrangement(case):
             if to != cur and rem[to] > 0:
                 cur = to
         switches = conv
+    record = not case.get('reuse')
+    recd = Recorder(apps) if record else None
+    before = _fingerprint(apps) if record else None
     s = Scheduler(_bodies(case, apps, logs), case.get('start', 0) % n, switches, repo_trace_dir(), arr_codes())
-    _, errors = s.run()
-    return dict(threads=logs, solo=solo, steps=solo_steps_, sched_steps=list(s.steps), hang=s.hang,
-                thread_errors=[type(e).__name__ if e else None for e in errors], switches=switches)
+    if record:
+        recd.install()
+    try:
+        _, errors = s.run()
+    finally:
+        if record:
+            recd.uninstall()
+    out = dict(threads=logs, solo=solo, steps=solo_steps_, sched_steps=list(s.steps), hang=s.hang,
+               thread_errors=[type(e).__name__ if e else None for e in errors], switches=switches)
+    if record:
+        after = _fingerprint(apps[:len(before)])
+        out['shared_changed'] = sorted(k + '.' + f for k in before for f in before[k] if before[k][f] != after[k][f])
+        cmds, outs = recd.commands()
+        if len(_TRACES) < 20000:
+            _TRACES[json.dumps(case, sort_keys=True)] = cmds
+        out['trace_outs'] = outs
+    return out
 
 
 def _tokens(calls, acc):
@@ -783,6 +946,8 @@ def arrangement_failure(case, obs):
         return 'scheduler hang'
     if any(obs.get('thread_errors') or []):
         return 'thread died: %s' % obs['thread_errors']
+    if obs.get('shared_changed'):
+        return 'serving requests changed state kept on the shared objects (not per thread): %s' % obs['shared_changed']
     toks = _tokens(case['calls'], [])
     for ti, log in enumerate(obs['threads']):
         for rec in log:
